@@ -11,6 +11,7 @@ import (
 	"crypto/x509/pkix"
 	"encoding/asn1"
 	"errors"
+	"flag"
 	"fmt"
 	"io"
 	"math/big"
@@ -30,6 +31,15 @@ func TestMain(m *testing.M) {
 	debug.SetGCPercent(400) // math/big garbage dominates; memory use stays small
 	h.Observe("build", buildTag)
 	h.Observe("GODEBUG", os.Getenv("GODEBUG"))
+	// Native fuzzing only (no effect on any Test function): `go test -fuzz` hands
+	// every input that reaches new coverage to a worker for minimisation, by
+	// default for up to 60 s each - the whole budget of a target, during which the
+	// worker runs no new inputs. The driver's command line does not set the flag;
+	// bound the minimiser by executions instead (a flag given on the command line
+	// still wins: flag.Parse runs later, inside m.Run).
+	if f := flag.Lookup("test.fuzzminimizetime"); f != nil {
+		f.Value.Set("50x")
+	}
 	h.Main(m, ref.SelfTestSM3, ref.SelfTestSM2, selfTestDER, selfTestModel, selfTestLegacyModel)
 }
 
